@@ -596,3 +596,92 @@ func checkC08Namespaced(c *Ctx, n int) {
 		})
 	}
 }
+
+// checkC07CommandNamespace: a namespace assigned to a COMMAND (Command.Namespace; there is no tag for
+// it) prefixes the long names of everything below it - its subcommands' options, groups attached to it.
+// The name with the prefix reaches the option; the bare name is unknown and handled by the policy.
+func checkC07CommandNamespace(c *Ctx, n int) {
+	r := c.Rng
+	for i := 0; i < n; i++ {
+		policy := []string{"fail", "ignore", "identity"}[r.Intn(3)]
+		cs := &Case{Name: "app", NsDelim: []string{".", "-"}[r.Intn(2)], EnvNsDelim: "_"}
+		switch policy {
+		case "ignore":
+			cs.Opts |= flags.IgnoreUnknown
+		case "identity":
+			cs.Handler = "identity"
+		}
+		add := &StructDesc{Fields: []FieldDesc{{Name: "Tags", Exported: true, Kind: "v", Ty: "str", Tag: `long:"tags" short:"t"`}}}
+		remote := &StructDesc{Fields: []FieldDesc{
+			{Name: "Own", Exported: true, Kind: "v", Ty: "bool", Tag: `long:"own"`},
+			{Name: "Add", Exported: true, Kind: "s", Tag: `command:"add"`, Sub: add}}}
+		root := &StructDesc{Fields: []FieldDesc{
+			{Name: "V", Exported: true, Kind: "v", Ty: "bool", Tag: `short:"v"`},
+			{Name: "Remote", Exported: true, Kind: "s", Tag: `command:"remote" subcommands-optional:"1"`, Sub: remote}}}
+		cs.Build = []BuildOp{{Kind: "addgroup", Target: 1, Short: "Application Options", Struct: root},
+			{Kind: "setcmd", Target: 2, Attr: "ns", Vals: []string{hx("remote")}}}
+		lateGroup := r.Intn(2) == 0
+		if lateGroup {
+			cs.Build = append(cs.Build, BuildOp{Kind: "addgroup", Target: 2, Short: "Late", Struct: &StructDesc{Fields: []FieldDesc{
+				{Name: "Depth", Exported: true, Kind: "v", Ty: "str", Tag: `long:"depth"`}}}})
+		}
+		full := "remote" + cs.NsDelim + "tags"
+		bare := "tags"
+		argvPre := []string{"remote", "add"}
+		field := "Tags"
+		if lateGroup && r.Intn(2) == 0 {
+			full, bare, argvPre, field = "remote"+cs.NsDelim+"depth", "depth", []string{"remote"}, "Depth"
+		}
+		useBare := r.Intn(2) == 0
+		name := full
+		if useBare {
+			name = bare
+		}
+		argv := append(append([]string{}, argvPre...), "--"+name+"=x", "w")
+		cs.Ops = []Op{{Kind: "parse", Args: argv}}
+		cs.Description = describeOps(cs)
+		c.RunCases([]*Case{cs}, func(cr *CaseResult) {
+			c.classifyCase(cr)
+			if cr.Real == nil || cr.Real.dead {
+				return
+			}
+			var obs parseObs
+			for _, o := range parseBlocks(cr) {
+				obs = o
+			}
+			c.Class(fmt.Sprintf("c07/command-namespace: policy=%s bare-name=%v option=%s", policy, useBare, field))
+			nCalls := 0
+			for _, l := range obs.logs {
+				if strings.HasPrefix(l, "LOG unknown ") {
+					nCalls++
+				}
+			}
+			val := ""
+			if fr, ok := cr.Real.fields[field]; ok {
+				val = fr.val.String()
+			}
+			in := map[string]interface{}{"case": cs.Description, "argv": argv, "command_remote_has_namespace": "remote", "policy": policy}
+			got := fmt.Sprintf("%s %s type %d %q remaining %q, %d handler calls, %s=%q", obs.panic, obs.errKind, obs.errType, obs.errMsg, obs.ret, nCalls, field, val)
+			var ok bool
+			var want string
+			switch {
+			case !useBare:
+				want = fmt.Sprintf("success, remaining [w], %s=\"x\"", field)
+				ok = obs.panic == "" && obs.errKind == "ok" && fmt.Sprintf("%q", obs.ret) == `["w"]` && val == "x" && nCalls == 0
+			case policy == "fail":
+				want = "ErrUnknownFlag: unknown flag `" + bare + "'"
+				ok = obs.panic == "" && obs.errKind == "flags" && obs.errType == int(flags.ErrUnknownFlag) && obs.errMsg == "unknown flag `"+bare+"'"
+			case policy == "ignore":
+				want = fmt.Sprintf("success, remaining %q", []string{"--" + bare + "=x", "w"})
+				ok = obs.panic == "" && obs.errKind == "ok" && fmt.Sprintf("%q", obs.ret) == fmt.Sprintf("%q", []string{"--" + bare + "=x", "w"}) && val == ""
+			default:
+				want = `one handler call, then success with remaining ["w"]`
+				ok = obs.panic == "" && obs.errKind == "ok" && nCalls == 1 && fmt.Sprintf("%q", obs.ret) == `["w"]` && val == ""
+			}
+			if !ok {
+				in["case_file"] = c.saveCase(cr)
+			}
+			c.Check("a-command's-namespace-prefixes-the-names-below-it", ok, "C07:command-namespace", in, got, want)
+		})
+	}
+}
